@@ -135,6 +135,7 @@ def run(repo: Repo, rep: Report) -> None:
     size_cases = lambda n: [None, 2, [None] * n, [2] + [None] * (n - 1), [1] * n, [n] + [None] * (n - 1)]  # noqa: E731
     # ---- without borders -----------------------------------------------------------------------
     deviating = []
+    xitems: List[Any] = []
     n_ok = 0
     try:
         for gname, n, edges in SMALL:
@@ -147,6 +148,9 @@ def run(repo: Repo, rep: Report) -> None:
                 ret_ids = [v.attrs.get("id") for v in ret.attrs["data"]] if isinstance(ret, Obj) and "data" in ret.attrs else None
                 if same and (ret_ids is None or [LAST_MATCH.get(i) for i in ret_ids] != [("gid", k) for k in range(n)]):
                     same, diff = False, f"the returned value is not the group-id array but {[LAST_MATCH.get(i) for i in (ret_ids or [])]}"
+                if same and n <= 3 and ret_ids:
+                    szl = [sizes] * n if isinstance(sizes, int) else ([None] * n if sizes is None else list(sizes))
+                    xitems.append((f"graph '{gname}' {edges}, group_size={sizes}", inst, list(ret_ids), szl, n, edges))
                 if same:
                     n_ok += 1
                 else:
@@ -160,6 +164,26 @@ def run(repo: Repo, rep: Report) -> None:
         n_ok = -1
     if n_ok >= 0 and not deviating:
         rep.ok("ENC-S", f"division_connected_variable_groups: reference schema on {n_ok} (graph, group_size) instances, group ids returned", points=n_ok)
+        rep.rule("ENC-X", "on the small instances the set of partitions realisable by the group ids equals the set of valid partitions (guards the reference schema; can only add violations)")
+        t0 = time.time()
+        checked = 0
+        for desc, inst, ids, szl, n, edges in xitems:
+            if time.time() - t0 > 10:
+                break
+            proj = projection(inst, ids, budget_s=2.5)
+            if proj is None:
+                continue
+            checked += 1
+            got_parts = {gid_partition(g) for g in proj}
+            want_parts = partitions_ok(n, edges, szl)
+            if got_parts != want_parts:
+                w_ = sorted(map(sorted, next(iter((got_parts - want_parts) or (want_parts - got_parts)))))
+                rep.finding("ENC-X", GRAPH, "_division_connected_variable_groups", "variable groups semantics",
+                            f"division_connected_variable_groups on [{desc}]: the partition {w_} is {'realisable' if got_parts - want_parts else 'not realisable'} "
+                            f"by the group ids, but it is {'not ' if got_parts - want_parts else ''}a valid division")
+                break
+        else:
+            rep.ok("ENC-X", f"division_connected_variable_groups: realisable partitions == valid partitions on {checked} small instances", points=checked)
     elif deviating:
         _triage(rep, "division_connected_variable_groups", deviating, with_borders=False)
     # ---- with borders ---------------------------------------------------------------------------
